@@ -13,7 +13,7 @@ import (
 
 func init() {
 	register("C12", "sched", &PartDef{
-		Rule:  "writer scripts over {Wn, F(lush), A(wait), C(lose)} with 1-3 byte blocks cut by Flush (plus one Write spanning two real 65280-byte blocks), wc in {1,2,3}; every schedule of compressors/emitter/device up to the preemption bound (quick 2, thorough 3; unbounded for the two smallest scripts), with HB state caching; in each execution every device snapshot (at the return of each underlying Write) must end at a member boundary (independent RFC1952/BGZF parser) and decode to a prefix of the bytes offered so far, Flush+Wait==nil implies everything before the Flush is on the device, Close==nil implies everything plus the EOF marker; a one-shot underlying write failure must not be followed by further data (no hole). Also a bam.Writer (header, Flush, Wait, 2 records, Close). Non-trivial: executions with at least one scheduling choice.",
+		Rule:  "writer scripts over {Wn, F(lush), A(wait), C(lose)} with 1-3 byte blocks cut by Flush (plus one Write spanning two real 65280-byte blocks), wc in {1,2,3}; every schedule of compressors/emitter/device up to the preemption bound (quick 2, thorough 3; unbounded for the two smallest scripts), with HB state caching; in each execution every device snapshot (at the return of each underlying Write) must end at a member boundary (independent RFC1952/BGZF parser) and decode to a prefix of the bytes offered so far, Flush+Wait==nil implies everything before the Flush is on the device, Close==nil implies everything plus the EOF marker; a one-shot underlying write failure must not be followed by further data (no hole); W1 F A W1 F A C with a persistent or one-shot failure of the first or second underlying Write (Wait==nil only with the data on the device); W65280 F A W1 F A C (a Flush with nothing left to flush must still be waited for). Also a bam.Writer (header, Flush, Wait, 2 records, Close). Non-trivial: executions with at least one scheduling choice.",
 		Gen:   c12gen,
 		Build: c12build,
 	})
@@ -70,6 +70,22 @@ func c12gen(tier string) []Spec {
 		// one-shot write failure at call k: nothing may follow the failed block
 		for k := 1; k <= 3; k++ {
 			sp := wspec("W1 F W1 F W1 F C", wc, 1, bound, faultio.Fault{At: k, Once: true}, "c12")
+			sp.BudgetS = 240
+			specs = append(specs, sp)
+		}
+		// Flush+Wait under a failing device: Wait may return nil only if the flushed data is
+		// on the device (the failing Write may still be in flight when Wait is entered)
+		for k := 1; k <= 2; k++ {
+			for _, once := range []bool{false, true} {
+				sp := wspec("W1 F A W1 F A C", wc, 1, bound, faultio.Fault{At: k, Once: once}, "c12")
+				sp.BudgetS = 240
+				specs = append(specs, sp)
+			}
+		}
+		// Flush with nothing to flush: the data written since the last Flush ends exactly at a
+		// block boundary, so Write queued it all and Flush is a no-op; Wait must still wait for it
+		if wc <= 2 {
+			sp = wspec("W65280 F A W1 F A C", wc, 0, bound, faultio.Fault{}, "c12")
 			sp.BudgetS = 240
 			specs = append(specs, sp)
 		}
